@@ -146,7 +146,7 @@ func (vc *VC) goEq(t types.Type, a, b string) string {
 			return fmt.Sprintf("(fp.eq %s %s)", a, b)
 		}
 		if isString(t) {
-			return fmt.Sprintf("(str.equal %s %s)", a, b)
+			return fmt.Sprintf("(gostr.equal %s %s)", a, b)
 		}
 	case *types.Struct:
 		if !hasFloatOrArray(t) {
